@@ -250,6 +250,80 @@ fn gen_model_iso(g: &mut SplitMix64, n: usize, shape: u64) -> (Model, Option<usi
     }
 }
 
+/// Dense graphs: adjacency rows with >= 16 entries (and lengths that are not multiples of 4).
+/// kind 0: complete graph K17..K22; 1: star hub with 17..23 leaves (+ a few leaf-leaf edges);
+/// 2: multigraph on 3..4 sites, site 0 joined to site 1 and site 2 by 17..23 parallel edges in total.
+/// `one_mag`: a single coupling magnitude with random signs (zero-energy worm moves), else distinct-ish k/8.
+fn gen_dense(g: &mut SplitMix64, kind: u64, one_mag: bool) -> Model {
+    let mag = nonzero_dyadic(g, 0, 2, 8).abs();
+    let mut coupling = |g: &mut SplitMix64| -> f64 {
+        if one_mag {
+            if g.coin() {
+                mag
+            } else {
+                -mag
+            }
+        } else {
+            nonzero_dyadic(g, -2, 2, 8)
+        }
+    };
+    let mut edges: Vec<(Edge, f64)> = vec![];
+    let n;
+    match kind {
+        0 => {
+            n = 17 + g.below(6) as usize;
+            for a in 0..n {
+                for b in (a + 1)..n {
+                    let e = if g.coin() { (a, b) } else { (b, a) };
+                    edges.push((e, coupling(g)));
+                }
+            }
+        }
+        1 => {
+            let leaves = 17 + g.below(7) as usize;
+            n = leaves + 1;
+            let hub = g.below(n as u64) as usize;
+            for v in 0..n {
+                if v != hub {
+                    let e = if g.coin() { (hub, v) } else { (v, hub) };
+                    edges.push((e, coupling(g)));
+                }
+            }
+            for _ in 0..g.below(4) {
+                let a = g.below(n as u64) as usize;
+                let b = g.below(n as u64) as usize;
+                if a != b && a != hub && b != hub {
+                    edges.push(((a, b), coupling(g)));
+                }
+            }
+        }
+        _ => {
+            n = 3 + g.below(2) as usize;
+            let total = 17 + g.below(7) as usize;
+            let to1 = 1 + g.below(total as u64 - 1) as usize;
+            for i in 0..total {
+                let other = if i < to1 { 1 } else { 2 };
+                let e = if g.coin() { (0, other) } else { (other, 0) };
+                edges.push((e, coupling(g)));
+            }
+            if n == 4 {
+                edges.push(((2, 3), coupling(g)));
+            }
+            if g.coin() {
+                edges.push(((1, 2), coupling(g)));
+            }
+            // shuffle the edge order (the binding matrix sorts by neighbour, stable in edge order)
+            for i in (1..edges.len()).rev() {
+                let j = g.below(i as u64 + 1) as usize;
+                edges.swap(i, j);
+            }
+        }
+    }
+    let biases: Vec<f64> = if g.chance(1, 3) { vec![0.0; n] } else { (0..n).map(|_| g.dyadic(-2, 2, 8)).collect() };
+    stat(&format!("dense_graph_kind{}", kind), 1);
+    Model { edges, biases }
+}
+
 fn rand_state(g: &mut SplitMix64, n: usize) -> Vec<bool> {
     (0..n).map(|_| g.coin()).collect()
 }
@@ -361,6 +435,14 @@ fn mode_traj(a: &Args, g: &mut SplitMix64) {
         // worm steps (every third case) mostly on one-magnitude graphs, where worms travel
         let shape = if c as u64 % 3 == 2 && g.chance(2, 3) { 6 } else { g.below(7) };
         let (mut m, _) = gen_model_iso(g, n, shape);
+        // dense graphs (rows with >= 16 bonds): complete graphs, star hubs, heavy multigraphs
+        if g.chance(1, 8) {
+            let kind = g.below(3);
+            let one_mag = g.coin();
+            m = gen_dense(g, kind, one_mag);
+            stat("traj_dense", 1);
+        }
+        let n = m.n();
         // worm-first cases: half without biases, where a worm update must conserve the reported energy
         if c as u64 % 3 == 2 && g.coin() {
             m.biases = vec![0.0; n];
@@ -425,7 +507,17 @@ fn mode_thr(a: &Args, g: &mut SplitMix64) {
         let n = 2 + g.below(5) as usize;
         let shape = g.below(4);
         let (m, iso) = gen_model_iso(g, n, shape);
-        let beta = g.dyadic(0, 3, 8);
+        let (m, iso, n) = if g.chance(1, 6) {
+            let kind = g.below(3);
+            let d = gen_dense(g, kind, false);
+            stat("thr_dense", 1);
+            let dn = d.n();
+            (d, None, dn)
+        } else {
+            (m, iso, n)
+        };
+        // dense graphs have large energy differences: smaller beta keeps the thresholds measurable
+        let beta = if n > 6 || m.edges.len() > 16 { g.dyadic(0, 1, 16) } else { g.dyadic(0, 3, 8) };
         // a quarter of the cases in small energy units (J, h times 2^-k, beta times 2^k)
         let (m, beta) = if g.chance(1, 4) {
             let k = *g.pick(&SCALES);
@@ -611,7 +703,7 @@ fn mode_imp(a: &Args, g: &mut SplitMix64) {
 // kern: exact one-step kernel of the real code by exploring the tree of draws
 // ------------------------------------------------------------------------------------------------
 const GRID: usize = 128; // grid of probe words: j << 57, j = 0..GRID, plus u64::MAX
-const MAXN: u64 = 40;
+const MAXN: u64 = 64;
 
 struct Explorer<'a> {
     m: &'a Model,
@@ -731,6 +823,16 @@ impl<'a> Explorer<'a> {
         }
         // threshold draw (gen::<f64>() against a probability, or gen_range(0.0..total) against a table):
         // behaviour is piecewise constant in the word; find the pieces.
+        // Guard: a threshold draw never re-draws, and in the spin / worm update it is the last draw. If some probe
+        // word needed more words, this is a gen_range(0..n) with n > MAXN (long candidate list): no verdict.
+        if self.kind != 1 && obs.iter().any(|o| o.1 != 0) {
+            return Err(format!("draw {} is neither a recognisable gen_range(0..n<= {}) nor a final threshold draw", script.len(), MAXN));
+        }
+        // finer grid for the pieces (2048 cells): the smallest importance share of the generated graphs is
+        // (1/8) / (24 * 2) = 1/384, so no piece can hide inside one cell
+        let mut words: Vec<u64> = (0..2048u64).map(|j| j << 53).collect();
+        words.push(u64::MAX);
+        let obs: Vec<Obs> = words.clone().iter().map(|v| self.run1(script, *v)).collect();
         let mut pieces: Vec<(u64, Obs)> = vec![(0, obs[0])];
         for i in 0..words.len() - 1 {
             let mut b = vec![];
@@ -974,13 +1076,18 @@ fn mode_kern(a: &Args, g: &mut SplitMix64) {
         let n = 2 + (c % 2) as usize;
         let kind = (c / 2) % 2;
         let imp = kind == 1 && g.chance(1, 2);
-        let m = if c % 6 >= 4 {
+        let dense = c % 7 == 6;
+        let m = if dense {
+            // 3..4 sites, 17..23 parallel edges on site 0 (|J| in 1/8..2: every importance share > 1/128)
+            stat("kern_dense_multigraph", 1);
+            gen_dense(g, 2, false)
+        } else if c % 6 >= 4 {
             stat("kern_isolated_biased_site", 1);
             isolated_site_model(g)
         } else {
             small_model(g, n, imp)
         };
-        let beta = g.dyadic(0, 2, 4);
+        let beta = if dense { g.dyadic(0, 1, 16) } else { g.dyadic(0, 2, 4) };
         let (m, beta) = if c % 5 == 4 {
             let k = *g.pick(&SCALES);
             stat("kern_small_units", 1);
@@ -1015,6 +1122,18 @@ fn mode_kern_worm(a: &Args, g: &mut SplitMix64) {
         if zero_bias {
             stat("kern_worm_zero_bias", 1);
         }
+        // every eighth worm kernel on a dense multigraph (rows with >= 16 bonds), one coupling magnitude half of the time
+        let (m, beta) = if c % 8 == 5 {
+            stat("kern_worm_dense_multigraph", 1);
+            let one_mag = g.coin();
+            let mut d = gen_dense(g, 2, one_mag);
+            if g.coin() {
+                d.biases = vec![0.0; d.n()];
+            }
+            (d, g.dyadic(0, 1, 16))
+        } else {
+            (m, beta)
+        };
         // a third of the worm kernels in small energy units
         let (m, beta) = if c % 3 == 1 {
             let k = *g.pick(&SCALES);
